@@ -1037,9 +1037,10 @@ def obligations_new(case):
         st.assume(case.M >= 1, IGN != NoneC)
         cache_ref = kcache.new_cache(I, st, case.kcls)
         kw2 = dict(kw)
-        kw2.update({'cache': cache_ref, 'keymap': case.keymap})
+        kw2.update({'cache': cache_ref, 'keymap': case.keymap, 'ignore': Opaque(IGN), 'tol': Opaque(TOL), 'deep': BoolV(False)})
         I.cur_func = fn
         ok, why = False, ''
+        forwarded = {}
         try:
             res = I.call(st, case.cls, CallArgs(list(pos), kw2))
             if len(res) != 1 or isinstance(res[0][1], Exc):
@@ -1065,10 +1066,24 @@ def obligations_new(case):
                     else:
                         ok = isinstance(ms, IntV) and z3.is_true(z3.simplify(ms.term == case.M))
                     why = 'recorded maxsize is %r' % (ms,)
+                    # whichever class the request is handed to, it gets the whole configuration
+                    for (fld, want_v, owner) in (('cache', cache_ref, 'C08'), ('keymap', case.keymap, 'C09'), ('ignore', Opaque(IGN), 'C11'),
+                                                 ('tol', Opaque(TOL), 'C12'), ('deep', BoolV(False), 'C12')):
+                        got = items.get(fld)
+                        if isinstance(want_v, Opaque):
+                            same = isinstance(got, Opaque) and z3.eq(got.term, want_v.term)
+                        elif isinstance(want_v, BoolV):
+                            same = isinstance(got, BoolV) and z3.is_true(z3.simplify(got.term == want_v.term))
+                        else:
+                            same = got is want_v or got == want_v
+                        forwarded[fld] = (bool(same), owner, '%r recorded, %r given' % (got, want_v))
         except Unsupported as e:
             why = 'unsupported: %s' % e
         obs.append(Obligation('%s/dispatch[%s]' % (fn, label), [], z3.BoolVal(bool(ok)), prop='C05', func=fn, path=label + ' | ' + why,
                               info={'case': case.qual, 'op': 'new'}))
+        for fld, (same, owner, txt) in sorted(forwarded.items()):
+            obs.append(Obligation('%s/dispatch_forwards[%s]' % (fn, fld), [], z3.BoolVal(same), prop=owner, func=fn,
+                                  path='%s | %s' % (label, txt), info={'case': case.qual, 'op': 'new'}))
     return obs
 
 
